@@ -1,12 +1,15 @@
 #!/bin/bash
-# seedtest.sh <patch.diff> <prop> [<prop>...] : apply a seeded change to /repo, run the quick checks, undo it.
+# seedtest.sh <patch.diff> <prop> [<prop>...] : run quick checks against a scratch copy of /repo with the seeded change applied
+# (RP_REPO), so that /repo itself is never touched.
 patch="$1"; shift
-cd /repo || exit 2
-if [ -n "$(git status --porcelain --untracked-files=no)" ]; then echo "/repo not clean"; exit 2; fi
-git apply "$patch" || { echo "patch does not apply"; exit 2; }
-trap 'git -C /repo checkout -- . ' EXIT
-cd /verif
+cd "$(dirname "$0")/.."
+scratch=/tmp/rp-seedtest-$$
+rm -rf $scratch; mkdir -p $scratch
+git -C /repo archive HEAD | tar -x -C $scratch
+cp /repo/Cargo.lock $scratch/ 2>/dev/null
+( cd $scratch && git init -q . && git apply "$patch" ) || { echo "patch does not apply"; rm -rf $scratch; exit 2; }
+trap 'rm -rf '$scratch'; rm -rf build/cargo-target-* build/harness-*' EXIT
 for p in "$@"; do
-  out=$(./check "$p" quick 2>&1); rc=$?
+  out=$(RP_REPO=$scratch ./check "$p" quick 2>&1); rc=$?
   echo "== $p rc=$rc $(echo "$out" | grep -E 'VIOLATION|INTERNAL|KNOWN' | head -3)"
 done
